@@ -3,7 +3,7 @@
 MC_LAYER = {"module": "MC_RustFFT.tla", "cfg": "MC_RustFFT.cfg", "cfg_quick": "MC_RustFFT_quick.cfg", "timeout": 900}
 
 MC_CALL = {"module": "MC_CallProtocol.tla", "cfg": "MC_CallProtocol.cfg", "timeout": 600}
-MC_PLAN = {"module": "MC_Planners.tla", "cfg": "MC_Planners.cfg", "cfg_quick": "MC_Planners_quick.cfg", "timeout": 3000}
+MC_PLAN = {"module": "MC_Planners.tla", "cfg": "MC_Planners.cfg", "cfg_quick": "MC_Planners_quick.cfg", "timeout": 3000, "xss": "1g"}
 
 MC_SCR = {"module": "MC_Scratch.tla", "cfg": "MC_Scratch.cfg", "cfg_quick": "MC_Scratch_quick.cfg", "args": ["-maxSetSize", "30000000"], "timeout": 1200}
 MC_EXEC = {"module": "MC_Exec.tla", "cfg": "MC_Exec.cfg", "cfg_quick": "MC_Exec_quick.cfg", "timeout": 2400, "xss": "1g"}
